@@ -871,6 +871,173 @@ static std::string op_util(const std::vector<std::string>& w)
     return "bad-args";
 }
 
+static std::string op_stats(const std::vector<std::string>& w)
+{
+    std::vector<uint8_t> b = unhex(w[2]);
+    Guarded g(b);
+    sb_trajectory_t tr;
+    sb_error_t e = sb_trajectory_init_from_buffer(&tr, g.ptr, g.n);
+    if (e != SB_SUCCESS) {
+        return "init:" + code(e);
+    }
+    std::string out;
+    if (w[1] == "takeoff") {
+        float ascent = f_of_hex(w[3]), speed = f_of_hex(w[4]), acc = f_of_hex(w[5]);
+        float t = sb_trajectory_propose_takeoff_time_sec(&tr, ascent, speed, acc);
+        // the one-pass statistics interface with the same parameters
+        sb_trajectory_stats_calculator_t calc;
+        sb_trajectory_stats_t st;
+        memset(&st, 0x5A, sizeof st);
+        sb_trajectory_stats_calculator_init(&calc, 1.0f);
+        calc.acceleration = acc;
+        calc.takeoff_speed = speed;
+        calc.min_ascent = ascent;
+        sb_error_t e2 = sb_trajectory_stats_calculator_run(&calc, &tr, &st);
+        out = "takeoff=" + fhex(t) + " stats=" + code(e2);
+        if (e2 == SB_SUCCESS) {
+            out += ":" + fhex(st.takeoff_time_sec) + ":" + fhex(st.earliest_above_sec);
+        }
+        sb_trajectory_stats_calculator_destroy(&calc);
+    } else if (w[1] == "landing") {
+        float descent = f_of_hex(w[3]), thr = f_of_hex(w[4]);
+        float t = sb_trajectory_propose_landing_time_sec(&tr, descent, thr);
+        sb_trajectory_stats_calculator_t calc;
+        sb_trajectory_stats_t st;
+        memset(&st, 0x5A, sizeof st);
+        sb_trajectory_stats_calculator_init(&calc, 1.0f);
+        calc.preferred_descent = descent;
+        calc.verticality_threshold = thr;
+        sb_error_t e2 = sb_trajectory_stats_calculator_run(&calc, &tr, &st);
+        out = "landing=" + fhex(t) + " stats=" + code(e2);
+        if (e2 == SB_SUCCESS) {
+            out += ":" + fhex(st.landing_time_sec);
+        }
+        out += " total=" + U(sb_trajectory_get_total_duration_msec(&tr));
+        sb_trajectory_stats_calculator_destroy(&calc);
+    } else {
+        sb_bounding_box_t bb;
+        memset(&bb, 0x5A, sizeof bb);
+        e = sb_trajectory_get_axis_aligned_bounding_box(&tr, &bb);
+        out = "bbox=" + code(e);
+        if (e == SB_SUCCESS) {
+            out += ":" + fhex(bb.x.min) + "," + fhex(bb.x.max) + "," + fhex(bb.y.min) + "," + fhex(bb.y.max) + "," + fhex(bb.z.min) + "," + fhex(bb.z.max);
+        }
+        // the same through the two loading routes is C06's business
+    }
+    sb_trajectory_destroy(&tr);
+    return out;
+}
+
+static sb_poly_t poly_of(const std::string& s)
+{
+    std::vector<std::string> t = csv(s);
+    float xs[SB_MAX_POLY_COEFFS];
+    size_t n = 0;
+    for (; n < t.size() && n < SB_MAX_POLY_COEFFS; n++) {
+        xs[n] = f_of_hex(t[n]);
+    }
+    sb_poly_t p;
+    sb_poly_make(&p, xs, (uint8_t)n);
+    return p;
+}
+
+static std::string poly_coeffs(const sb_poly_t& p)
+{
+    std::string out = "c=";
+    if (p.num_coeffs == 0) {
+        return out + "-";
+    }
+    for (int i = 0; i < p.num_coeffs; i++) {
+        out += (i ? "," : "") + fhex(p.coeffs[i]);
+    }
+    return out;
+}
+
+static std::string op_poly(const std::vector<std::string>& w)
+{
+    const std::string& k = w[1];
+    if (k == "bezier") {
+        std::vector<std::string> t = csv(w[3]);
+        float xs[16];
+        size_t n = 0;
+        for (; n < t.size() && n < 16; n++) {
+            xs[n] = f_of_hex(t[n]);
+        }
+        sb_poly_t p;
+        memset(&p, 0, sizeof p);
+        sb_poly_make_bezier(&p, f_of_hex(w[2]), xs, (uint8_t)n);
+        std::string out = poly_coeffs(p) + " v=";
+        std::vector<std::string> us = csv(w[4]);
+        for (size_t i = 0; i < us.size(); i++) {
+            out += (i ? "," : "") + fhex(sb_poly_eval(&p, f_of_hex(us[i])));
+        }
+        if (us.empty()) {
+            out += "-";
+        }
+        out += " deg=" + S(sb_poly_get_degree(&p));
+        return out;
+    }
+    if (k == "eval") {
+        sb_poly_t p = poly_of(w[2]);
+        std::string out = "v=";
+        std::vector<std::string> us = csv(w[3]);
+        for (size_t i = 0; i < us.size(); i++) {
+            out += (i ? "," : "") + fhex(sb_poly_eval(&p, f_of_hex(us[i])));
+        }
+        // the double-precision evaluator must agree with the float one up to float rounding
+        out += " d=";
+        for (size_t i = 0; i < us.size(); i++) {
+            out += (i ? "," : "") + fhex((float)sb_poly_eval_double(&p, (double)f_of_hex(us[i])));
+        }
+        return out;
+    }
+    if (k == "deriv" || k == "scale" || k == "stretch" || k == "addc") {
+        sb_poly_t p = poly_of(w[2]);
+        if (k == "deriv") {
+            sb_poly_deriv(&p);
+        } else if (k == "scale") {
+            sb_poly_scale(&p, f_of_hex(w[3]));
+        } else if (k == "stretch") {
+            sb_poly_stretch(&p, f_of_hex(w[3]));
+        } else {
+            sb_poly_add_constant(&p, f_of_hex(w[3]));
+        }
+        return poly_coeffs(p);
+    }
+    if (k == "solve") {
+        sb_poly_t p = poly_of(w[2]);
+        float roots[8];
+        uint8_t n = 99;
+        for (int i = 0; i < 8; i++) {
+            roots[i] = NAN;
+        }
+        sb_error_t e = sb_poly_solve(&p, f_of_hex(w[3]), roots, &n);
+        std::string out = "solve=" + code(e);
+        if (e == SB_SUCCESS) {
+            out += ":" + S(n);
+            for (int i = 0; i < n && i < 8; i++) {
+                out += ":" + fhex(roots[i]);
+            }
+        }
+        return out;
+    }
+    if (k == "touches") {
+        sb_poly_t p = poly_of(w[2]);
+        float r = NAN;
+        sb_bool_t t = sb_poly_touches(&p, f_of_hex(w[3]), &r);
+        return "touches=" + S(t ? 1 : 0) + (t ? ":" + fhex(r) : "");
+    }
+    if (k == "extrema") {
+        sb_poly_t p = poly_of(w[2]);
+        sb_interval_t iv;
+        iv.min = NAN;
+        iv.max = NAN;
+        sb_error_t e = sb_poly_get_extrema(&p, &iv);
+        return "extrema=" + code(e) + ":" + fhex(iv.min) + ":" + fhex(iv.max);
+    }
+    return "bad-args";
+}
+
 static std::string op_crc(const std::vector<std::string>& w)
 {
     // crc <init> <hex> <split points, csv or ->: successive calls on the pieces
@@ -916,6 +1083,12 @@ static std::string run_case(const std::vector<std::string>& w)
     }
     if (op == "file") {
         return op_file(w);
+    }
+    if (op == "stats") {
+        return op_stats(w);
+    }
+    if (op == "poly") {
+        return op_poly(w);
     }
     if (op == "build") {
         return op_build(w);
